@@ -941,8 +941,9 @@ type caseResult struct {
 }
 
 // opTimeout: a single request takes microseconds; a request that has not returned by then hangs (a lock that is still held, ...).
-// Generous because the machine is shared.
-const opTimeout = 30 * time.Second
+// Very generous because the machine is shared (a stalled process must not be taken for a hang); once a hang has been seen
+// the following ones are given less time.
+var opTimeout = 60 * time.Second
 
 // guarded runs fn with a watchdog; false = it did not return in time (its goroutine is abandoned).
 func guarded(fn func()) bool {
@@ -1150,6 +1151,7 @@ var hangs int
 func emitCase(r *hx.Run, sub uint64, ops []string, res *caseResult) {
 	defer func() {
 		if res.hung {
+			opTimeout = 15 * time.Second
 			if hangs++; hangs >= 2 {
 				r.Count("run-ended-after-two-hangs")
 				r.Finish()
